@@ -194,8 +194,19 @@ Definition crossed_derived_fd (fb : flat) (f : nat) (fd : ffactor) : bool :=
               && memb f (main_crossing_of fb) && forallb (fun d => isact fb d && is_basic_f fb d) (win_deps w)
   | None => false
   end.
+(** a factor the sampler draws: of [act_design], and plain or in the sampled crossing *)
+Definition in_K (fb : flat) (d : nat) : bool :=
+  isact fb d && (negb (is_derived fb d) || memb d (main_crossing_of fb)).
+(** a within-trial derived factor of [act_design] outside the sampled crossing: its levels are filled in after the
+    draw ([fill_in_nonpreamble_uncrossed_derived]); it reads drawn factors through an exact table *)
+Definition ucd_fd (fb : flat) (f : nat) (fd : ffactor) : bool :=
+  match ff_window fd with
+  | Some w => negb (ff_complex fd) && (win_width w =? 1) && (win_stride w =? 1) && (win_start w =? 0)
+              && negb (memb f (main_crossing_of fb)) && forallb (in_K fb) (win_deps w) && tables_exact fb f w
+  | None => false
+  end.
 Definition factors_ok (fb : flat) : bool :=
-  forallb (fun p => if isact fb (fst p) then basic_fd (snd p) || crossed_derived_fd fb (fst p) (snd p)
+  forallb (fun p => if isact fb (fst p) then basic_fd (snd p) || crossed_derived_fd fb (fst p) (snd p) || ucd_fd fb (fst p) (snd p)
                     else implied_fd fb (fst p) (snd p))
           (combine (seq 0 (length (fl_design fb))) (fl_design fb)).
 Definition has_derived (fb : flat) : bool := existsb (is_derived fb) (fl_act fb).
